@@ -173,13 +173,17 @@ def rowAt (tier level : Nat) : CPar := (adjRows.getD tier []).getD level ⟨0, 0
 def estLevelInternal (level : Nat) : Nat :=
   (List.range 4).foldl (fun acc t => max acc (estimateUsingCParams (rowAt t level) false)) 0
 
-/-- ZSTD_estimateCCtxSize(L) for L ≥ 1: the largest need over the levels 1..L -/
+/-- ZSTD_maxCLevel() (`ZSTD_MAX_CLEVEL`, regenerated from clevels.h: `Gen.maxCLevel`) -/
+def maxCLevel : Nat := Gen.maxCLevel.toNat
+
+/-- ZSTD_estimateCCtxSize(L) for L ≥ 1: the largest need over the levels 1..min(L, ZSTD_maxCLevel()) (a level beyond the maximum compresses
+like the maximum, and the loop stops there) -/
 def estLevel (L : Nat) : Nat :=
-  (List.range L).foldl (fun acc k => max acc (estLevelInternal (k + 1))) 0
+  (List.range (min L maxCLevel)).foldl (fun acc k => max acc (estLevelInternal (k + 1))) 0
 
 /-- ZSTD_estimateCStreamSize(L) for L ≥ 1 (unknown-size tier only) -/
 def estStreamLevel (L : Nat) : Nat :=
-  (List.range L).foldl (fun acc k => max acc (estimateUsingCParams (rowAt 3 (k + 1)) true)) 0
+  (List.range (min L maxCLevel)).foldl (fun acc k => max acc (estimateUsingCParams (rowAt 3 (k + 1)) true)) 0
 
 /-! ### domination test used at run time (hypothesis of `Props.C14.usingCParams_covers` / `level_covers`) -/
 
